@@ -42,6 +42,11 @@ def configs(tier):
                 continue
             for o in spec.opts:
                 cfgs.append({'kind': 'spec', 'name': spec.name, 'space': sp, 'opt': o})
+    # Huber on vector fields whose components carry weights (values and gradient must use the
+    # same, weighted, pointwise norm)
+    for sp in ('pw_rn2_2_c', 'pw_rn2_2_wl'):
+        for o in FR.BY_NAME['Huber'].opts:
+            cfgs.append({'kind': 'spec', 'name': 'Huber', 'space': sp, 'opt': o})
     for kd in DER_KINDS:
         for b in DER_BASES:
             spec = FR.BY_NAME[b]
